@@ -78,7 +78,8 @@ def run(ctx):
                 if k is None:
                     continue
                 for v in model.path_values(p):
-                    for (kind, recv, amt, payer) in direct_transfers(ix, v):
+                    # message-building helpers (one success path) are seen through
+                    for (kind, recv, amt, payer) in direct_transfers(ix, ix.inline(v)):
                         if (k == "NativeToken") != (kind == "native"):
                             arms_[k].add(("WRONG-KIND-IN-ARM", kind))
                         arms_[k].add((ix.inline(recv), N(ix, amt) if amt is not None else None))
